@@ -22,6 +22,9 @@ def run(ctx):
     common.trace_layer(ctx, "parser-trace", "Trace_Parser.tla", "Trace_Parser.cfg", "parserfault", "parser-trace-rejected",
                        {"files": 200 if q else 4000, "bad": 30, "faults": 1}, "parser/parser.go",
                        selftests=[("ioerr-turned-into-success", io_to_nil)])
+    # the log / the book through a named pipe (a file of unknown size): the binary prints what it prints for a regular file
+    rp = ctx.drv("pipe-input", outfile=ctx.scratch + "/pipe_mm.ndjson", env_extra={"VERIF_BIN": ctx.build_binary()})
+    ctx.add("evaluations", rp["runs"])
     # the channel API over the same parser (a third of the inputs end in a read failure; Parser values used again):
     # an input that cannot be read completely must reach the consumer as an error, never as completion
     common.trace_layer(ctx, "chan-trace", "Trace_ChanParser.tla", "Trace_ChanParser.cfg", "chan", "chan-trace-rejected", {"runs": 300 if q else 5000}, "parser/parser.go")
